@@ -217,27 +217,28 @@ Proof.
 Qed.
 
 (* ---------------------------------------------------------------- the shape of HandleMsg *)
+Definition n_p_term_same (s s1 : node) : Prop := p_term (n_p s1) = p_term (n_p s) /\ p_log (n_p s1) = p_log (n_p s).
 Definition lsame (s s1 : node) : Prop :=
   l_peers s1 = l_peers s /\ n_role s1 = n_role s /\ n_conf s1 = n_conf s /\ n_id s1 = n_id s /\ n_msgs s1 = n_msgs s /\
-  n_commit s1 = n_commit s.
+  n_commit s1 = n_commit s /\ n_p_term_same s s1.
 
 Lemma handle_msg_shape s m s' :
   n_msgs s = [] -> handle_msg s m = Ret s' ->
-  lsame s s' \/ n_role s' = Follower \/
+  lsame s s' \/ (n_role s' = Follower /\ (p_term (n_p s) < p_term (n_p s') \/ n_role s = Follower)) \/
   (exists s1, lsame s s1 /\ n_role s1 = Candidate /\ handle_candidate s1 m = Ret s') \/
   (exists s1, lsame s s1 /\ n_role s1 = Leader /\ handle_leader s1 m = Ret s').
 Proof.
   intros Hm. unfold handle_msg.
   destruct ((negb (m_to m =? 0) && negb (m_to m =? n_id s)) || (negb (m_tog m =? 0) && negb (m_tog m =? p_guid (n_p s)))).
-  { intro H. inversion H. left. unfold lsame. repeat split; reflexivity. }
+  { intro H. inversion H. left. unfold lsame, n_p_term_same. repeat split; reflexivity. }
   destruct (negb (guid_get (m_from m) (p_guids (n_p s)) =? 0) && negb (guid_get (m_from m) (p_guids (n_p s)) =? m_fromg m)).
-  { intro H. inversion H. left. unfold lsame. repeat split; reflexivity. }
+  { intro H. inversion H. left. unfold lsame, n_p_term_same. repeat split; reflexivity. }
   assert (H1 : forall s1, (if guid_get (m_from m) (p_guids (n_p s)) =? 0 then do_mut (MSetGuid (m_from m) (m_fromg m)) s else Ret s) = Ret s1 ->
                lsame s s1).
   { intros s1. destruct (guid_get (m_from m) (p_guids (n_p s)) =? 0).
     - unfold do_mut. destruct (negb (n_budget s =? 0) && (n_budget s =? n_cnt s + 1)); [discriminate|].
-      intro E. inversion E. unfold lsame. simpl. repeat split; reflexivity.
-    - intro E. inversion E. subst. unfold lsame. repeat split; reflexivity. }
+      intro E. inversion E. unfold lsame, n_p_term_same. simpl. repeat split; reflexivity.
+    - intro E. inversion E. subst. unfold lsame, n_p_term_same. repeat split; reflexivity. }
   destruct (if guid_get (m_from m) (p_guids (n_p s)) =? 0 then do_mut (MSetGuid (m_from m) (m_fromg m)) s else Ret s) as [s1 | |];
     simpl; try discriminate.
   pose proof (H1 s1 eq_refl) as L1.
@@ -246,24 +247,26 @@ Proof.
   destruct (m_term m <? p_term (n_p s1)).
   { intro H. inversion H. subst. left. exact L1. }
   assert (M1 : n_msgs s1 = []) by (destruct L1 as [_ [_ [_ [_ [X _]]]]]; congruence).
-  destruct (p_term (n_p s1) <? m_term m).
-  - assert (H2 : forall s2,
+  destruct (p_term (n_p s1) <? m_term m) eqn:Ehi.
+  - apply N.ltb_lt in Ehi. assert (H2 : forall s2,
                (match m_body m with
                 | AppEnts _ _ _ _ | InstallSnap _ _ _ =>
                     s'0 <- do_mut (MSaveState (m_from m) (m_term m)) s1 ;; Ret (become_follower s'0 (m_from m))
                 | VoteReq _ _ => s'0 <- do_mut (MSaveState 0 (m_term m)) s1 ;; Ret (become_follower s'0 0)
                 | _ => Fatal F_RESP_HIGHER_TERM
-                end) = Ret s2 -> n_msgs s2 = [] /\ n_role s2 = Follower).
+                end) = Ret s2 -> n_msgs s2 = [] /\ n_role s2 = Follower /\ p_term (n_p s2) = m_term m).
     { intros s2. destruct (m_body m); try discriminate;
         unfold do_mut; destruct (negb (n_budget s1 =? 0) && (n_budget s1 =? n_cnt s1 + 1)); simpl; try discriminate;
-        intro X; inversion X; simpl; split; congruence. }
+        intro X; inversion X; simpl; repeat split; congruence. }
     match goal with |- bind ?a _ = _ -> _ => destruct a as [s2 | |] end; simpl; try discriminate.
-    destruct (H2 s2 eq_refl) as [M2 R2].
+    destruct (H2 s2 eq_refl) as [M2 [R2 T2]].
     unfold handle_by_role. rewrite R2. intro H. apply handle_follower_sum in H; auto.
-    destruct H as [_ [_ [_ [T _]]]]. right. left. destruct T; congruence.
+    destruct H as [_ [Ht [_ [T _]]]]. right. left. split; [destruct T; congruence|]. left.
+    destruct L1 as [_ [_ [_ [_ [_ [_ [X _]]]]]]]. rewrite Ht, T2, <- X. exact Ehi.
   - simpl. unfold handle_by_role. destruct (n_role s1) eqn:Er.
     + intro H. apply handle_follower_sum in H; auto.
-      destruct H as [_ [_ [_ [T _]]]]. right. left. destruct T; congruence.
+      destruct H as [_ [_ [_ [T _]]]]. right. left. split; [destruct T; congruence|]. right.
+      destruct L1 as [_ [X _]]. congruence.
     + intro H. right. right. left. exists s1. auto.
     + intro H. right. right. right. exists s1. auto.
 Qed.
@@ -271,7 +274,7 @@ Qed.
 Lemma handle_msg_leader_pf s m s' :
   n_msgs s = [] -> handle_msg s m = Ret s' -> n_role s = Leader -> n_role s' = Leader -> pf s s'.
 Proof.
-  intros Hm H Hr Hr'. destruct (handle_msg_shape s m s' Hm H) as [L | [F | [[s1 [L [R _]]] | [s1 [L [R Hl]]]]]].
+  intros Hm H Hr Hr'. destruct (handle_msg_shape s m s' Hm H) as [L | [[F _] | [[s1 [L [R _]]] | [s1 [L [R Hl]]]]]].
   - destruct L as [L _]. intro id. unfold peer_ids. rewrite L. tauto.
   - congruence.
   - destruct L as [_ [L _]]. congruence.
@@ -287,7 +290,7 @@ Qed.
 Lemma handle_msg_elected s m s' :
   n_msgs s = [] -> handle_msg s m = Ret s' -> n_role s <> Leader -> n_role s' = Leader -> ids_ok s'.
 Proof.
-  intros Hm H Hr Hr'. destruct (handle_msg_shape s m s' Hm H) as [L | [F | [[s1 [L [R Hc]]] | [s1 [L [R Hl]]]]]].
+  intros Hm H Hr Hr'. destruct (handle_msg_shape s m s' Hm H) as [L | [[F _] | [[s1 [L [R Hc]]] | [s1 [L [R Hl]]]]]].
   - destruct L as [_ [L _]]. congruence.
   - congruence.
   - revert Hc. unfold handle_candidate. destruct (m_body m).
